@@ -37,10 +37,53 @@ import (
 
 // ---- routers
 
+// recRoute (round 6) counts, over every address any entry point produced in this process, which representation of a port
+// criterion in the fixed router cells was asked about which edge port, for which kind of target. The labels are bumped by
+// useAddr (no case of its own: the address is part of the case of the entry point that produced it). The required labels
+// are declared by TestSeeds, the deterministic stage that is guaranteed to produce all of them.
+var recRoute = ev.New(prop, "route-cells",
+	"every address produced by any entry point x 38 fixed router cells; cells with a source-port criterion are asked with 6 sources "+
+		"(ports 1, 11, 61, 39999, 40000, 65535) and, for UDP requests, 2 more with source port 0. Label '<side>:<representation>[/inv] <what>' = "+
+		"the first port criterion of the cell (side to|from, representation single|ranges|bitmap, inverted or not; type verified by reflect on "+
+		"the built route) was evaluated for: 'dom/p0', 'ip/p0', 'dom/p65535', 'ip/p65535' (destination side: kind of target and its port) or "+
+		"'src/p0 dom|ip', 'src/p65535 dom|ip' (source side: source port, kind of target)")
+
+// routeRequired are the labels a full run must have produced (all of them come out of the deterministic seed lists).
+func routeRequired() []string {
+	var out []string
+	for _, rep := range []string{"single", "ranges", "bitmap"} {
+		for _, inv := range []string{"", "/inv"} {
+			for _, k := range []string{"dom", "ip"} {
+				for _, p := range []string{"p0", "p65535"} {
+					out = append(out, "to:"+rep+inv+" "+k+"/"+p, "from:"+rep+inv+" src/"+p+" "+k)
+				}
+			}
+		}
+	}
+	return out
+}
+
 type routerCell struct {
 	name string // criterion/representation[/inv]
 	rep  string // representation reflect saw in the built route ("" when not a port criterion)
 	r    *router.Router
+	// round 6: what the cell's port criteria are, as verified by reflect on the built route (inner type of an
+	// inverted criterion included). side "to" / "from" / "" ; kind "single" / "ranges" / "bitmap".
+	ports []cellPort
+}
+
+// cellPort describes one port criterion of a cell.
+type cellPort struct {
+	side, kind string
+	inv        bool
+}
+
+func (p cellPort) String() string {
+	s := p.side + ":" + p.kind
+	if p.inv {
+		s += "/inv"
+	}
+	return s
 }
 
 // setFiles are the domain-set / prefix-set files written once per process for router configs.
@@ -150,6 +193,20 @@ func buildCells() {
 		wantRep string
 		rc      router.RouteConfig
 	}
+	// round 6: every type name listed under inner must occur among the built criteria (inverted ones unwrapped)
+	type specExtra struct {
+		inner []string
+		ports []cellPort
+	}
+	extras := map[string]specExtra{}
+	const (
+		tSingle = "router.DestPortCriterion"
+		tRanges = "router.DestPortRangeSetCriterion"
+		tBitmap = "*router.DestPortSetCriterion"
+		fSingle = "router.SourcePortCriterion"
+		fRanges = "router.SourcePortRangeSetCriterion"
+		fBitmap = "*router.SourcePortSetCriterion"
+	)
 	specs := []spec{
 		{"to/single", "router.DestPortCriterion", router.RouteConfig{ToPorts: []uint16{443}}},
 		{"to/ranges2", "router.DestPortRangeSetCriterion", router.RouteConfig{ToPortRanges: "1-1023,8000-9000"}},
@@ -176,6 +233,62 @@ func buildCells() {
 		{"tcp-only", "", router.RouteConfig{Network: "tcp", ToPortRanges: portRanges(17)}},
 		{"udp-only/reject", "", router.RouteConfig{Network: "udp", ToPortRanges: portRanges(17), Client: "reject"}},
 	}
+	// what the cells above are, for the route-cells evidence
+	for i := range specs {
+		switch specs[i].name {
+		case "to/single":
+			extras[specs[i].name] = specExtra{[]string{tSingle}, []cellPort{{"to", "single", false}}}
+		case "to/ranges2", "to/ranges16":
+			extras[specs[i].name] = specExtra{[]string{tRanges}, []cellPort{{"to", "ranges", false}}}
+		case "to/bitmap17", "to/bitmap20", "to/bitmapmix", "tcp-only", "udp-only/reject":
+			extras[specs[i].name] = specExtra{[]string{tBitmap}, []cellPort{{"to", "bitmap", false}}}
+		case "to/single/inv":
+			extras[specs[i].name] = specExtra{[]string{tSingle}, []cellPort{{"to", "single", true}}}
+		case "to/ranges2/inv":
+			extras[specs[i].name] = specExtra{[]string{tRanges}, []cellPort{{"to", "ranges", true}}}
+		case "to/bitmap17/inv":
+			extras[specs[i].name] = specExtra{[]string{tBitmap}, []cellPort{{"to", "bitmap", true}}}
+		case "from/single":
+			extras[specs[i].name] = specExtra{[]string{fSingle}, []cellPort{{"from", "single", false}}}
+		case "from/ranges2":
+			extras[specs[i].name] = specExtra{[]string{fRanges}, []cellPort{{"from", "ranges", false}}}
+		case "from/bitmap17":
+			extras[specs[i].name] = specExtra{[]string{fBitmap}, []cellPort{{"from", "bitmap", false}}}
+		}
+	}
+	// Round 6: the remaining combinations of {source, destination} x {single, <=16 ranges, bitmap} x {plain, inverted}, bitmaps
+	// that contain the edge ports 1 and 65535, and routes in which a port criterion is followed by a domain / prefix criterion
+	// (so a request that passes the port criterion goes on into the name-based ones) or preceded by a source-side one.
+	specs = append(specs,
+		spec{"from/single/inv", "router.InvertedCriterion", router.RouteConfig{FromPorts: []uint16{40000}, InvertFromPorts: true}},
+		spec{"from/ranges2/inv", "router.InvertedCriterion", router.RouteConfig{FromPortRanges: "1-1023,40000-50000", InvertFromPorts: true}},
+		spec{"from/bitmap17/inv", "router.InvertedCriterion", router.RouteConfig{FromPortRanges: portRanges(17), InvertFromPorts: true}},
+		spec{"from/bitmapmix", "*router.SourcePortSetCriterion", router.RouteConfig{FromPorts: []uint16{1, 65535}, FromPortRanges: portRanges(16)}},
+		spec{"from/bitmapmix/inv", "router.InvertedCriterion", router.RouteConfig{FromPorts: []uint16{1, 65535}, FromPortRanges: portRanges(16), InvertFromPorts: true}},
+		spec{"to/bitmap20/inv", "router.InvertedCriterion", router.RouteConfig{ToPorts: singles20, InvertToPorts: true}},
+		spec{"to/bitmapmix/inv", "router.InvertedCriterion", router.RouteConfig{ToPorts: []uint16{1, 65535}, ToPortRanges: portRanges(16), InvertToPorts: true}},
+		spec{"to/ranges16/inv", "router.InvertedCriterion", router.RouteConfig{ToPortRanges: portRanges(16), InvertToPorts: true}},
+		spec{"from/bitmap17+to/bitmap17", "*router.DestPortSetCriterion", router.RouteConfig{FromPortRanges: portRanges(17), FromPorts: []uint16{40000, 65535}, ToPortRanges: portRanges(17), ToPorts: []uint16{443, 65535}}},
+		spec{"from/bitmap17/inv+to/bitmap17/inv", "router.InvertedCriterion", router.RouteConfig{FromPortRanges: portRanges(17), InvertFromPorts: true, ToPortRanges: portRanges(17), InvertToPorts: true}},
+		spec{"to/bitmap17/inv+domains", "", router.RouteConfig{ToPortRanges: portRanges(17), InvertToPorts: true, ToDomains: []string{"example.com", "a"}, ToDomainSets: []string{"ds"}}},
+		spec{"to/bitmapmix+domainsets+expected", "", router.RouteConfig{ToPorts: []uint16{1, 53, 443, 65535}, ToPortRanges: portRanges(16), ToDomainSets: []string{"ds"}, ToMatchedDomainExpectedPrefixes: pfx[:2]}},
+		spec{"to/bitmap17/inv+prefixes/resolved", "", router.RouteConfig{ToPortRanges: portRanges(17), InvertToPorts: true, ToPrefixes: pfx[:2]}},
+		spec{"users+from/bitmap17/inv+to/single/inv", "router.InvertedCriterion", router.RouteConfig{FromUsers: []string{"alice", "", "u"}, FromPortRanges: portRanges(17), InvertFromPorts: true, ToPorts: []uint16{443}, InvertToPorts: true}},
+	)
+	extras["from/single/inv"] = specExtra{[]string{fSingle}, []cellPort{{"from", "single", true}}}
+	extras["from/ranges2/inv"] = specExtra{[]string{fRanges}, []cellPort{{"from", "ranges", true}}}
+	extras["from/bitmap17/inv"] = specExtra{[]string{fBitmap}, []cellPort{{"from", "bitmap", true}}}
+	extras["from/bitmapmix"] = specExtra{[]string{fBitmap}, []cellPort{{"from", "bitmap", false}}}
+	extras["from/bitmapmix/inv"] = specExtra{[]string{fBitmap}, []cellPort{{"from", "bitmap", true}}}
+	extras["to/bitmap20/inv"] = specExtra{[]string{tBitmap}, []cellPort{{"to", "bitmap", true}}}
+	extras["to/bitmapmix/inv"] = specExtra{[]string{tBitmap}, []cellPort{{"to", "bitmap", true}}}
+	extras["to/ranges16/inv"] = specExtra{[]string{tRanges}, []cellPort{{"to", "ranges", true}}}
+	extras["from/bitmap17+to/bitmap17"] = specExtra{[]string{fBitmap, tBitmap}, []cellPort{{"from", "bitmap", false}, {"to", "bitmap", false}}}
+	extras["from/bitmap17/inv+to/bitmap17/inv"] = specExtra{[]string{fBitmap, tBitmap}, []cellPort{{"from", "bitmap", true}, {"to", "bitmap", true}}}
+	extras["to/bitmap17/inv+domains"] = specExtra{[]string{tBitmap, "router.DestDomainCriterion"}, []cellPort{{"to", "bitmap", true}}}
+	extras["to/bitmapmix+domainsets+expected"] = specExtra{[]string{tBitmap, "router.DestDomainExpectedIPCriterion"}, []cellPort{{"to", "bitmap", false}}}
+	extras["to/bitmap17/inv+prefixes/resolved"] = specExtra{[]string{tBitmap, "router.DestResolvedIPCriterion"}, []cellPort{{"to", "bitmap", true}}}
+	extras["users+from/bitmap17/inv+to/single/inv"] = specExtra{[]string{fBitmap, tSingle}, []cellPort{{"from", "bitmap", true}, {"to", "single", true}}}
 	logger := debugLogger()
 	r1, r2 := fakeResolver{0}, fakeResolver{2}
 	for _, sp := range specs {
@@ -207,7 +320,14 @@ func buildCells() {
 			cellsErr = fmt.Errorf("router cell %s: built criterion %q, expected %q", sp.name, rep, sp.wantRep)
 			return
 		}
-		cells = append(cells, routerCell{name: sp.name, rep: rep, r: r})
+		built := routeCriterionTypes(r)
+		for _, want := range extras[sp.name].inner {
+			if !strings.Contains(" "+built+" ", " "+want+" ") {
+				cellsErr = fmt.Errorf("router cell %s: built criteria %q do not contain %q", sp.name, built, want)
+				return
+			}
+		}
+		cells = append(cells, routerCell{name: sp.name, rep: rep, r: r, ports: extras[sp.name].ports})
 	}
 }
 
@@ -361,6 +481,18 @@ func useAddr(t failer, rec *ev.Recorder, origin string, addr conn.Addr, username
 		netip.MustParseAddrPort("[::ffff:10.1.2.3]:11"),
 		netip.MustParseAddrPort("[2001:db8::2]:65535"),
 	}
+	// Round 6. Cells with a source-port criterion are asked with sources from the lists below (edge ports 1 and 65535, a port inside and
+	// one outside the ranges); a datagram's source port is whatever its sender wrote into the UDP header, so for UDP requests the
+	// list includes source port 0 (a TCP connection cannot have it, so it is not asked for TCP).
+	srcsFrom := [...]netip.AddrPort{
+		netip.MustParseAddrPort("127.0.0.1:1"),
+		netip.MustParseAddrPort("127.0.0.1:61"),
+		netip.MustParseAddrPort("[::1]:39999"),
+	}
+	srcsZero := [...]netip.AddrPort{
+		netip.MustParseAddrPort("127.0.0.1:0"),
+		netip.MustParseAddrPort("[::ffff:127.0.0.1]:0"),
+	}
 	h := fnv.New32a()
 	h.Write([]byte(addr.String()))
 	hv := h.Sum32()
@@ -368,26 +500,84 @@ func useAddr(t failer, rec *ev.Recorder, origin string, addr conn.Addr, username
 	// finding ends the routing step for this address (the remaining cells are skipped, counted as known).
 	cellList := routerCells(t)
 	cur := ""
-	k := guard(t, rec, "route", func() string { return desc() + " cell=" + cur }, func() {
+	tgtKind := "ip"
+	if addr.IsDomain() {
+		tgtKind = "dom"
+	}
+	portClass := func(p uint16) string {
+		switch p {
+		case 0:
+			return "p0"
+		case 65535:
+			return "p65535"
+		}
+		return ""
+	}
+	asked := map[string]int64{}
+	var (
+		curCell *routerCell
+		curSrc  netip.AddrPort
+	)
+	k := guard(t, rec, "route", func() string {
+		if curCell == nil {
+			return desc()
+		}
+		return desc() + " cell=" + curCell.name + " rep=" + curCell.rep + " src=" + curSrc.String()
+	}, func() {
+		var list []netip.AddrPort
 		for i, c := range cellList {
-			cur = c.name + " rep=" + c.rep
-			info := router.RequestInfo{ServerIndex: i & 1, Username: username, SourceAddrPort: srcs[(int(hv)+i)%len(srcs)], TargetAddr: addr}
-			if isUDP {
-				cl, err := c.r.GetUDPClient(ctx, info)
-				if cl == nil && err == nil {
-					t.Fatalf("SIG=C06/route-no-result VERIF-VIOLATION %s cell=%s: GetUDPClient returned neither client nor error", desc(), c.name)
+			list = append(list[:0], srcs[(int(hv)+i)%len(srcs)])
+			hasFrom := false
+			for _, p := range c.ports {
+				hasFrom = hasFrom || p.side == "from"
+			}
+			if hasFrom {
+				// two of the six non-zero sources per address (rotating with the address hash: over a seed list every cell
+				// sees every source many times), and for UDP one with source port 0
+				j := int(hv>>3) + i
+				all := [...]netip.AddrPort{srcs[0], srcsFrom[0], srcs[2], srcsFrom[1], srcs[1], srcsFrom[2]}
+				list = append(list[:0], all[j%6], all[(j+1+int(hv>>9)%5)%6])
+			}
+			if isUDP && (hasFrom || (int(hv)+i)%4 == 0) {
+				list = append(list, srcsZero[(int(hv)+i)%len(srcsZero)])
+			}
+			for _, src := range list {
+				curCell, curSrc = &cellList[i], src
+				info := router.RequestInfo{ServerIndex: i & 1, Username: username, SourceAddrPort: src, TargetAddr: addr}
+				if isUDP {
+					cl, err := c.r.GetUDPClient(ctx, info)
+					if cl == nil && err == nil {
+						t.Fatalf("SIG=C06/route-no-result VERIF-VIOLATION %s cell=%s: GetUDPClient returned neither client nor error", desc(), c.name)
+					}
+				} else {
+					cl, err := c.r.GetTCPClient(ctx, info)
+					if cl == nil && err == nil {
+						t.Fatalf("SIG=C06/route-no-result VERIF-VIOLATION %s cell=%s: GetTCPClient returned neither client nor error", desc(), c.name)
+					}
 				}
-			} else {
-				cl, err := c.r.GetTCPClient(ctx, info)
-				if cl == nil && err == nil {
-					t.Fatalf("SIG=C06/route-no-result VERIF-VIOLATION %s cell=%s: GetTCPClient returned neither client nor error", desc(), c.name)
+				res.routed++
+				// evidence: which port-criterion representation was asked about which edge port (the first port criterion of a
+				// route is always evaluated; a later one only when the earlier ones were met, so only the first is counted)
+				if len(c.ports) > 0 {
+					p := c.ports[0]
+					if p.side == "to" {
+						if pc := portClass(addr.Port()); pc != "" {
+							asked[p.String()+" "+tgtKind+"/"+pc]++
+						}
+					} else if pc := portClass(src.Port()); pc != "" {
+						asked[p.String()+" src/"+pc+" "+tgtKind]++
+					}
 				}
 			}
-			res.routed++
 		}
 	})
 	if k {
 		res.known = true
+	} else {
+		for l, n := range asked {
+			recRoute.Label(l, n)
+		}
+		recRoute.Label("addresses", 1)
 	}
 
 	// 3. relaying: every client protocol re-encodes the address for its upstream.
